@@ -584,3 +584,84 @@ package mcp
 //@   private[C05,C11] pendingRequests writers newResponseManager, RegisterRequest, UnregisterRequest, DeliverResponse
 //@ type net/http.Request
 //@   final[C03,C04,C06,C11,C13] Method, URL, Header
+
+// ---------------------------------------------------------------------------
+// streamable_client.go / sse_client.go — C19: every outbound request is built
+// from the configured URL and path, carries every static header and the
+// session id, passes the before-request function exactly once with the
+// operation's context, and leaves only through the configured request handler.
+
+//@ func Client.applyHTTPBeforeRequest
+//@   modifies *, beforecnt(req), beforectx(req), beforeerr(req)
+//@   ensures c.httpBeforeRequestFunc != nil ==> beforecnt(req) == old(beforecnt(req)) + 1 && beforectx(req) == ctx && beforeerr(req) == result
+//@   ensures c.httpBeforeRequestFunc == nil ==> beforecnt(req) == old(beforecnt(req)) && beforeerr(req) == old(beforeerr(req)) && result == nil
+//@
+//@ type Client
+//@   init NewClient, WithHTTPBeforeRequest
+//@   final[C19] httpBeforeRequestFunc
+//@ type streamableHTTPClientTransport
+//@   init NewClient, withClientTransportPath, withTransportHTTPHeaders, withTransportHTTPReqHandler, withClientTransportLogger, withTransportHTTPReqHandlerOption, withTransportServiceName
+//@   final[C19] serverURL, path, httpClient, httpReqHandler, httpHeaders, client
+//@   invariant[C19] self.httpReqHandler != nil
+//@
+//@ func streamableHTTPClientTransport.send
+//@   before call applyHTTPBeforeRequest#1 assert[C19 configured-url] requrl(httpReq) == t.serverURL.String()
+//@   before call applyHTTPBeforeRequest#1 assert[C19 custom-path-applied] len(t.path) != 0 ==> httpReq.URL.Path == t.path
+//@   before call applyHTTPBeforeRequest#1 assert[C19 session-id-carried] t.sessionID != "" && !t.isStateless ==> hval(httpReq.Header, "Mcp-Session-Id") == t.sessionID
+//@   before call applyHTTPBeforeRequest#1 assert[C19 every-static-header-key-visited] yielded(1) == len(t.httpHeaders)
+//@   before call Handle#1 assert[C19 before-request-exactly-once-with-the-operation-context] t.client != nil && t.client.httpBeforeRequestFunc != nil ==> beforecnt(httpReq) == 1 && beforectx(httpReq) == ctx
+//@   before call Handle#1 assert[C19 nothing-is-sent-after-a-before-request-error] isnil(beforeerr(httpReq))
+//@ func streamableHTTPClientTransport.sendNotification
+//@   before call applyHTTPBeforeRequest#1 assert[C19 configured-url] requrl(httpReq) == t.serverURL.String()
+//@   before call applyHTTPBeforeRequest#1 assert[C19 custom-path-applied] len(t.path) != 0 ==> httpReq.URL.Path == t.path
+//@   before call applyHTTPBeforeRequest#1 assert[C19 session-id-carried] t.sessionID != "" ==> hval(httpReq.Header, "Mcp-Session-Id") == t.sessionID
+//@   before call applyHTTPBeforeRequest#1 assert[C19 every-static-header-key-visited] yielded(1) == len(t.httpHeaders)
+//@   before call Handle#1 assert[C19 before-request-exactly-once-with-the-operation-context] t.client != nil && t.client.httpBeforeRequestFunc != nil ==> beforecnt(httpReq) == 1 && beforectx(httpReq) == ctx
+//@   before call Handle#1 assert[C19 nothing-is-sent-after-a-before-request-error] isnil(beforeerr(httpReq))
+//@ func streamableHTTPClientTransport.connectGetSSE
+//@   before call applyHTTPBeforeRequest#1 assert[C19 configured-url] requrl(req) == t.serverURL.String()
+//@   before call applyHTTPBeforeRequest#1 assert[C19 custom-path-applied] len(t.path) != 0 ==> req.URL.Path == t.path
+//@   before call applyHTTPBeforeRequest#1 assert[C19 session-id-carried] hval(req.Header, "Mcp-Session-Id") == t.sessionID
+//@   before call applyHTTPBeforeRequest#1 assert[C19 every-static-header-key-visited] yielded(1) == len(t.httpHeaders)
+//@   before call Handle#1 assert[C19 before-request-exactly-once-with-the-handshake-context] t.client != nil && t.client.httpBeforeRequestFunc != nil ==> beforecnt(req) == 1 && beforectx(req) == ctx
+//@   before call Handle#1 assert[C19 nothing-is-sent-after-a-before-request-error] isnil(beforeerr(req))
+//@ func streamableHTTPClientTransport.sendResponseToServer
+//@   before call applyHTTPBeforeRequest#1 assert[C19 configured-url] requrl(httpReq) == t.serverURL.String()
+//@   before call applyHTTPBeforeRequest#1 assert[C19 custom-path-applied] len(t.path) != 0 ==> httpReq.URL.Path == t.path
+//@   before call applyHTTPBeforeRequest#1 assert[C19 session-id-carried] t.sessionID != "" ==> hval(httpReq.Header, "Mcp-Session-Id") == t.sessionID
+//@   before call applyHTTPBeforeRequest#1 assert[C19 every-static-header-key-visited] yielded(1) == len(t.httpHeaders)
+//@   before call Handle#1 assert[C19 before-request-exactly-once] t.client != nil && t.client.httpBeforeRequestFunc != nil ==> beforecnt(httpReq) == 1
+//@   before call Handle#1 assert[C19 nothing-is-sent-after-a-before-request-error] isnil(beforeerr(httpReq))
+//@ func streamableHTTPClientTransport.terminateSession
+//@   before call applyHTTPBeforeRequest#1 assert[C19 configured-url] requrl(httpReq) == t.serverURL.String()
+//@   before call applyHTTPBeforeRequest#1 assert[C19 custom-path-applied] len(t.path) != 0 ==> httpReq.URL.Path == t.path
+//@   before call applyHTTPBeforeRequest#1 assert[C19 session-id-carried] hval(httpReq.Header, "Mcp-Session-Id") == t.sessionID
+//@   before call applyHTTPBeforeRequest#1 assert[C19 every-static-header-key-visited] yielded(1) == len(t.httpHeaders)
+//@   before call Handle#1 assert[C19 before-request-exactly-once-with-the-operation-context] t.client != nil && t.client.httpBeforeRequestFunc != nil ==> beforecnt(httpReq) == 1 && beforectx(httpReq) == ctx
+//@   before call Handle#1 assert[C19 nothing-is-sent-after-a-before-request-error] isnil(beforeerr(httpReq))
+
+//@ type sseClientTransport
+//@   init newSSEClientTransport, NewSSEClient, withSSEClientTransportLogger
+//@   final[C19] baseURL, httpClient, httpReqHandler, httpHeaders, client
+//@   invariant[C19] self.httpReqHandler != nil
+//@
+//@ func sseClientTransport.start
+//@   before call applyHTTPBeforeRequest#1 assert[C19 configured-url] requrl(req) == t.baseURL.String()
+//@   before call applyHTTPBeforeRequest#1 assert[C19 every-static-header-key-visited] yielded(1) == len(t.httpHeaders)
+//@   before call Handle#1 assert[C19 before-request-exactly-once-with-the-connect-context] t.client != nil && t.client.httpBeforeRequestFunc != nil ==> beforecnt(req) == 1 && beforectx(req) == sseCtx
+//@   before call Handle#1 assert[C19 nothing-is-sent-after-a-before-request-error] isnil(beforeerr(req))
+//@ func sseClientTransport.sendRequestInternal
+//@   before call applyHTTPBeforeRequest#1 assert[C19 configured-url] requrl(httpReq) == t.endpoint.String()
+//@   before call applyHTTPBeforeRequest#1 assert[C19 every-static-header-key-visited] yielded(1) == len(t.httpHeaders)
+//@   before call Handle#1 assert[C19 before-request-exactly-once-with-the-operation-context] t.client != nil && t.client.httpBeforeRequestFunc != nil ==> beforecnt(httpReq) == 1 && beforectx(httpReq) == ctx
+//@   before call Handle#1 assert[C19 nothing-is-sent-after-a-before-request-error] isnil(beforeerr(httpReq))
+//@ func sseClientTransport.sendNotification
+//@   before call applyHTTPBeforeRequest#1 assert[C19 configured-url] requrl(httpReq) == t.endpoint.String()
+//@   before call applyHTTPBeforeRequest#1 assert[C19 every-static-header-key-visited] yielded(1) == len(t.httpHeaders)
+//@   before call Handle#1 assert[C19 before-request-exactly-once-with-the-operation-context] t.client != nil && t.client.httpBeforeRequestFunc != nil ==> beforecnt(httpReq) == 1 && beforectx(httpReq) == ctx
+//@   before call Handle#1 assert[C19 nothing-is-sent-after-a-before-request-error] isnil(beforeerr(httpReq))
+//@ func sseClientTransport.sendResponseMessage
+//@   before call applyHTTPBeforeRequest#1 assert[C19 configured-url] requrl(httpReq) == t.endpoint.String()
+//@   before call applyHTTPBeforeRequest#1 assert[C19 every-static-header-key-visited] yielded(1) == len(t.httpHeaders)
+//@   before call Handle#1 assert[C19 before-request-exactly-once] t.client != nil && t.client.httpBeforeRequestFunc != nil ==> beforecnt(httpReq) == 1
+//@   before call Handle#1 assert[C19 nothing-is-sent-after-a-before-request-error] isnil(beforeerr(httpReq))
